@@ -29,6 +29,10 @@ fn shard(ctx: &Ctx, rep: &mut Report) {
 	let n_cases = profile.cases(ctx.tier);
 	let mut seeder = Rng::new(ctx.seed ^ 0xC0FFEE);
 	let mut i = 0u64;
+	// witnesses of listed findings do not end a shard early (they are counted and reported as
+	// KNOWN-FINDING); 20 failing cases of any other kind do
+	let known = pv::run::load_known();
+	let mut unlisted = 0u64;
 	while i < n_cases && ctx.time_left() {
 		let case_seed = seeder.next() >> 2; // keep it inside the JSON integer range
 		// the variant index walks the profile's configuration list so every configuration is
@@ -39,11 +43,19 @@ fn shard(ctx: &Ctx, rep: &mut Report) {
 		if i % 4 == 3 {
 			rep.count("cases_with_debug_logging", 1);
 		}
+		let before = rep.violations.len();
+		let raw_before = rep.get("violations_raw");
 		hist::run_case(ctx, rep, profile, case_seed, variant);
+		if rep.get("violations_raw") > raw_before {
+			let listed = rep.violations.len() > before && rep.violations[before..].iter().all(|v| pv::run::is_known(&ctx.prop, &v.sig, &known));
+			if !listed {
+				unlisted += 1;
+			}
+		}
 		rep.cases += 1;
 		ctx.checkpoint(rep);
 		i += 1;
-		if rep.get("violations_raw") >= 20 {
+		if unlisted >= 20 {
 			rep.notes.push(format!("shard {} stopped after 20 failing cases", ctx.shard));
 			break
 		}
